@@ -263,6 +263,10 @@ def checkCall (o : OSt) (op res after : String) : Option String :=
       some s!"{op}: a create request changed an existing query {before} -> {after}"
     else if name == "co" && (res == "ok" || res == "err:Execution") then
       some s!"{op}: results handed out but the query is still there ({after})"
+    else if name == "co" && before == "Completed" && res.startsWith "err:InvalidState" then
+      -- complete IS valid for a finished query, whether its task returned a result or an error: the stored outcome is
+      -- handed out once and the query forgotten (seed C18g: a stored error fell through to the invalid-state arm)
+      some s!"{op}: the outcome of a finished query was not handed out ({res}) and the query stays ({after}), so no new query can start"
     else if name == "qs" && res.startsWith "ok:" then
       let rs := (opArg op 1).toList
       let ranks := rs.filterMap fun c => if '0' ≤ c ∧ c ≤ '4' then some (c.toNat - '0'.toNat) else none
